@@ -115,7 +115,7 @@ class C18(Check):
             "at least once and at least 2 batches completed; distinct = distinct (line-ups, op kinds)")
     assumptions = ["Calibrator, checkpointing, plot_results helper: real code (matplotlib/seaborn imported with the Agg back-end, nothing is drawn)",
                    "RL scheduler is not used here (set_scheduler is exercised with round-robin schedulers)"]
-    quick = {"runs": 600, "wall": 150, "item_timeout": 300}
+    quick = {"runs": 600, "wall": 300, "item_timeout": 300}
     thorough = {"runs": 15000, "wall": 900, "item_timeout": 180}
 
     def gen(self, rng, tier, i):
